@@ -15,8 +15,9 @@ OUTSIDE = ['lists with more than 3 entries', 'DW_FORM_data1/data2 as list pointe
 
 LLE = dict(end_of_list=0, base_addressx=1, startx_endx=2, startx_length=3, offset_pair=4, default_location=5, base_address=6, start_end=7, start_length=8)
 RLE = dict(end_of_list=0, base_addressx=1, startx_endx=2, startx_length=3, offset_pair=4, base_address=5, start_end=6, start_length=7)
-AT = dict(location=0x02, ranges=0x55, addr_base=0x73, rnglists_base=0x74, loclists_base=0x8c, low_pc=0x11, frame_base=0x40, GNU_locviews=0x2138)
+AT = dict(location=0x02, ranges=0x55, addr_base=0x73, rnglists_base=0x74, loclists_base=0x8c, low_pc=0x11, frame_base=0x40, GNU_locviews=0x2137)
 NADDR = 3
+VIEWS = [1, 2, 0, 3]          # two GNU location view pairs (ULEB128 begin, end) stored right before their list
 
 
 # ------------------------------------------------------------------ generators
@@ -335,6 +336,8 @@ def h_enum(ctx):
         ls = []
         for i in range(3):
             l, want, raw = gen_v5_list(ctx, 'l%d' % i, little, addr, [[('offset_pair', 1)], [('start_end', 0)], [('base_address',), ('offset_pair', 0)]][i], loc, addrs)
+            if cfg.get('views') is not None and i == cfg['views'][0]:
+                l = VIEWS + l
             ls.append((l, want))
         blk, info = _v5_block(ctx, little, addr, False, [l for l, _ in ls], with_table=False)
         offs = info['offs']
@@ -348,6 +351,8 @@ def h_enum(ctx):
         for i in range(3):
             kinds = [[('loc', 1)], [('base',), ('loc', 0)], [('loc', 2), ('loc', 0)]][i]
             l, want = (gen_v4_loclist if loc else gen_v4_rnglist)(ctx, 'l%d' % i, little, addr, kinds)
+            if cfg.get('views') is not None and i == cfg['views'][0]:
+                l = VIEWS + l
             offs.append(len(sec))
             sec += l
             ls.append((l, want))
@@ -360,21 +365,32 @@ def h_enum(ctx):
     use_attr = AT['location'] if loc else AT['ranges']
     form = 0x17 if ver >= 4 else 0x06
     dies = [[(use_attr if k % 2 == 0 or not loc else AT['frame_base'], form, enc.enc_int(offs[r], offsz, little))] for k, r in enumerate(refs)]
+    views = cfg.get('views')      # (list with GNU location views, second list referenced by ANOTHER attribute of the same entry)
+    if views is not None:
+        rv, r2 = views
+        dies = [[(AT['location'], form, enc.enc_int(offs[rv] + len(VIEWS), offsz, little)), (AT['GNU_locviews'], form, enc.enc_int(offs[rv], offsz, little)),
+                 (AT['frame_base'], form, enc.enc_int(offs[r2], offsz, little))]] + dies
     cu, ab = _mk_cu(ctx, little, addr, ver, False, [], addr_base=abase, dies=dies)
     di, streams = mk_dwarfinfo(ctx, little, addr, debug_info=cu, debug_abbrev=ab, **dict(extra, **{secname: sec}))
     lists = di.location_lists() if loc else di.range_lists()
     got = ctx.drain(lists.iter_location_lists() if loc else lists.iter_range_lists())
     ctx.outcome('ok')
-    want_idx = sorted(set(refs))
-    label = 'enum/%s/v%d' % ('loc' if loc else 'rng', ver)
+    want_idx = sorted(set(refs) | (set(views) if views is not None else set()))
+    label = 'enum/%s/v%d%s' % ('loc' if loc else 'rng', ver, '/views' if views is not None else '')
     ctx.check_eq(label + '/visited-count', len(got), len(want_idx))
     if len(got) != len(want_idx):
         return
     for g, r in zip(got, want_idx):
-        first = g[0] if g else None
-        ctx.check_eq(label + '/list-length', len(g), len(ls[r][1]))
+        nv = 0
+        if views is not None and r == views[0]:
+            # the list with views is yielded as its view pairs followed by its entries
+            nv = len(VIEWS) // 2
+            ctx.check_eq(label + '/view-pairs', [(type(x).__name__, x.entry_offset, x.begin, x.end) for x in g[:nv]],
+                         [('LocationViewPair', offs[r] + 2 * i, VIEWS[2 * i], VIEWS[2 * i + 1]) for i in range(nv)])
+        first = g[nv] if len(g) > nv else None
+        ctx.check_eq(label + '/list-length', len(g) - nv, len(ls[r][1]))
         if first is not None:
-            ctx.check_eq(label + '/first-entry-offset', first.entry_offset, offs[r])
+            ctx.check_eq(label + '/first-entry-offset', first.entry_offset, offs[r] + 2 * nv)
 
 
 # ------------------------------------------------------------------ H7.6 classification
@@ -492,7 +508,8 @@ HARNESSES = [
                                              for b in ([(False, 1, False)], [(False, 2, True), (True, 1, True)], [(True, 2, False), (False, 0, False), (False, 1, True)])], expect=('ok',),
       desc='unit blocks of the v5 list sections (DWARF32/64, offset_count 0-2, several blocks): iter_CUs headers and offset tables; iter_CU_range_lists_ex yields exactly the lists between the offset table and the block end'),
     H('h7_5_enum', h_enum, lambda tier: [dict(little=l, addr=a, loc=lo, ver=v, refs=r) for l, a in ENVS[:2] for lo in (True, False) for v in (3, 4, 5)
-                                         for r in ([0], [2, 0, 2], [1, 2])], expect=('ok',),
+                                         for r in ([0], [2, 0, 2], [1, 2])] +
+                                        [dict(little=l, addr=a, loc=True, ver=v, refs=r, views=vw) for l, a in ENVS[:2] for v in (4, 5) for r, vw in (([], (0, 2)), ([1], (2, 0)), ([2], (1, 2)))], expect=('ok',),
       desc='iter_location_lists / iter_range_lists: the visited lists are exactly those referenced by the entries of the unit (shared references once), in ascending offset order, skipping gaps'),
     H('h7_6_classify', h_classify, lambda tier: [dict(ver=v) for v in (2, 3, 4, 5)], expect=('ok',),
       desc='LocationParser.attribute_has_location and the expression/list split for every unambiguous (attribute, form, version) triple of DWARF 2-5 (ground obligations)'),
